@@ -9,24 +9,40 @@ Record inst := {
   i_original : bool;       (* original_instance *)
   i_torn : bool;           (* torn_down *)
   i_vid : bool;            (* verify_in_drop *)
-  i_panicked : bool        (* no_std only: `panicked` *)
+  i_panicked : bool;       (* no_std only: `panicked` *)
+  i_helper : bool;         (* default_impl_delegator_cell holds a helper clone *)
+  i_lent : N               (* clones of the mock stored in this instance's value chain *)
 }.
 
 Definition new_original : inst :=
-  {| i_alive := true; i_original := true; i_torn := false; i_vid := true; i_panicked := false |}.
+  {| i_alive := true; i_original := true; i_torn := false; i_vid := true; i_panicked := false;
+     i_helper := false; i_lent := 0 |}.
 
 (* impl Clone for Unimock *)
 Definition clone_of (i : inst) : inst :=
-  {| i_alive := true; i_original := false; i_torn := false; i_vid := i_vid i; i_panicked := false |}.
+  {| i_alive := true; i_original := false; i_torn := false; i_vid := i_vid i; i_panicked := false;
+     i_helper := false; i_lent := 0 |}.
 
 Definition set_torn (i : inst) : inst :=
-  {| i_alive := i_alive i; i_original := i_original i; i_torn := true; i_vid := i_vid i; i_panicked := i_panicked i |}.
+  {| i_alive := i_alive i; i_original := i_original i; i_torn := true; i_vid := i_vid i; i_panicked := i_panicked i;
+     i_helper := i_helper i; i_lent := i_lent i |}.
 Definition set_dead (i : inst) : inst :=
-  {| i_alive := false; i_original := i_original i; i_torn := i_torn i; i_vid := i_vid i; i_panicked := i_panicked i |}.
+  {| i_alive := false; i_original := i_original i; i_torn := i_torn i; i_vid := i_vid i; i_panicked := i_panicked i;
+     i_helper := false; i_lent := 0 |}.
 Definition set_vid (i : inst) (b : bool) : inst :=
-  {| i_alive := i_alive i; i_original := i_original i; i_torn := i_torn i; i_vid := b; i_panicked := i_panicked i |}.
+  {| i_alive := i_alive i; i_original := i_original i; i_torn := i_torn i; i_vid := b; i_panicked := i_panicked i;
+     i_helper := i_helper i; i_lent := i_lent i |}.
 Definition set_panicked (i : inst) : inst :=
-  {| i_alive := i_alive i; i_original := i_original i; i_torn := i_torn i; i_vid := i_vid i; i_panicked := true |}.
+  {| i_alive := i_alive i; i_original := i_original i; i_torn := i_torn i; i_vid := i_vid i; i_panicked := true;
+     i_helper := i_helper i; i_lent := i_lent i |}.
+(* AsRef<DefaultImplDelegator>: get_or_init(clone of self) *)
+Definition set_helper (i : inst) : inst :=
+  {| i_alive := i_alive i; i_original := i_original i; i_torn := i_torn i; i_vid := i_vid i; i_panicked := i_panicked i;
+     i_helper := true; i_lent := i_lent i |}.
+(* make_ref(self.clone()) *)
+Definition add_lent (i : inst) : inst :=
+  {| i_alive := i_alive i; i_original := i_original i; i_torn := i_torn i; i_vid := i_vid i; i_panicked := i_panicked i;
+     i_helper := i_helper i; i_lent := i_lent i + 1 |}.
 
 Fixpoint upd {X} (l : list X) (i : nat) (x : X) : list X :=
   match l, i with
@@ -35,8 +51,21 @@ Fixpoint upd {X} (l : list X) (i : nat) (x : X) : list X :=
   | h :: t, S i' => h :: upd t i' x
   end.
 
-Definition strong_count (is : list inst) : N :=
-  N.of_nat (length (filter i_alive is)).
+(* handles to the shared state held by one instance: itself, its helper clone,
+   the clones it lent out of its value chain *)
+Definition handles (i : inst) : N :=
+  if i_alive i then 1 + (if i_helper i then 1 else 0) + i_lent i else 0.
+
+(* Arc::strong_count *)
+Fixpoint strong_count (is : list inst) : N :=
+  match is with
+  | [] => 0
+  | i :: r => handles i + strong_count r
+  end.
+
+(* teardown first releases the instance's own helper and lent values *)
+Definition count_after_release (is : list inst) (i : inst) : N :=
+  strong_count is - (handles i - 1).
 
 (* where and how an operation runs *)
 Record ctx := {
